@@ -5,7 +5,7 @@ CONSTANTS
   Modes = {"echo", "none", "clamp", "raise", "crash"}
   Setups = {"rw-echo", "w-none", "rw-clamp", "w-crash", "rw-raise"}
   Xs = {0, 1, 2, 3, 4, 5, 6, 7, 8}
-  XW = {2, 3}
+  XW = {3}
   WPos = {2}
   APos = {0}
   Reads = {"ri"}
